@@ -3,6 +3,7 @@ package p_proto
 import (
 	"bytes"
 	"fmt"
+	"net/netip"
 	"sort"
 	"sync/atomic"
 	"testing"
@@ -295,6 +296,8 @@ func runC19Transfer(p c19Transfer, c *stats.Case) error {
 	defer b.Stop()
 	portA := nextPort()
 	var priorSeq uint64
+	var apA netip.AddrPort
+	var sentA0 int
 	if len(p.Prior) > 0 {
 		// history: the same node (identity, endpoint) advertised another version set earlier and B has that
 		// record in its table; after the restart its record is newer and B learns it in the handshake
@@ -311,6 +314,8 @@ func runC19Transfer(p c19Transfer, c *stats.Case) error {
 		}
 		priorSeq = a0.Node().Seq()
 		a0.Stop()
+		apA = a0.Conn.AddrPort()
+		sentA0 = hub.Sent(apA)
 		if perr == nil && inTable && !bytes.Equal(p.Prior, p.A) {
 			c.NT("restarted-with-other-version-set")
 		}
@@ -323,6 +328,13 @@ func runC19Transfer(p c19Transfer, c *stats.Case) error {
 		return fmt.Errorf("harness: %v", err)
 	}
 	defer a.Stop()
+	if len(p.Prior) > 0 && hub.Sent(apA) != sentA0 {
+		// The restarted node has already answered a packet of the responder (a liveness check of its routing table
+		// under the old session keys): the responder then opened the new session itself, with the record it had. A
+		// stale record in that case is how the discovery protocol works, not what this history is about.
+		c.Class("discarded:responder-contacted-the-restarted-node-first")
+		return nil
+	}
 	if len(p.Prior) > 0 && a.Node().Seq() <= priorSeq {
 		c.Class("harness:restarted-record-not-newer")
 		return nil // B may rightly keep the record it has
